@@ -299,4 +299,25 @@ PROPS = {
         "trusted_base": CTRL_TB + ["ticker model KcacheModel/Tick.lean written by hand from ticker.go / lister.go; Go timer semantics modelled (armed / fired-unread / idle)"],
         "assumptions": ["client List returns once its context is cancelled", "virtual time (testing/synctest); the 1.23+ timer semantics of the newer toolchain"],
     },
+    "C15": {
+        "engines": [
+            {"go": "lin", "driver": "lin", "actions": ("scenario", "w", "r", "g"), "nontrivial": lambda l: l.startswith("(lin-end"),
+             "classify": ctrl_cls(("C15",)), "resets": ["scenario"]},
+            {"go": "lin", "bin": "kharness_race", "driver": "lin", "actions": ("scenario", "w", "r", "g"),
+             "nontrivial": lambda l: l.startswith("(lin-end"), "classify": ctrl_cls(("C15",)), "resets": ["scenario"]},
+            {"go": "cachediff", "driver": "cache-events", "classify": lambda i, a: "reject" if a.startswith("reject get") else "ignore",
+             "nontrivial": has_events, "resets": ["new"]},
+        ],
+        "rule": "lin engine: one writer moves the real cache through distinguishable complete states (every object of state k carries version k; "
+                "k%3+2 objects) by sync/refilter, 1-6 (thorough 1-12) reader goroutines call List()/Get() concurrently and scribble over "
+                "the returned slices; calls and returns are stamped by one atomic counter; 6 (thorough 40) rounds of 300-600 writes, once built "
+                "normally and once with the race detector. Each history is checked for atomicity: every List() is one complete state, inside its "
+                "real-time window, no new-old inversion; every Get() is the key's version in a state of its window. Non-trivial: every round.",
+        "trusted_base": [
+            "actor model KcacheModel/Actor.lean written by hand from cache.go (request channels, one goroutine, buffered result channel)",
+            "the history checker Driver/LinEng.lean (atomic-register conditions for single-writer histories) is driver code, not proved",
+            "the Go race detector and scheduler: interleavings are sampled; absence of data races is a runtime fact supported by the detector only",
+        ],
+        "assumptions": ["a single writer (the controller / filtered-subscription goroutine is the only writer of its cache)"],
+    },
 }
